@@ -44,8 +44,7 @@
 (*                  (STACK objects) can hold a section's operands while a  *)
 (*                  value array is being built (TRUE) / sections are cut   *)
 (*                  by entry count only (FALSE, as coded)                  *)
-(* ("as coded" = font/cmap before the repairs ec5b7ba, b4574b9 and the one *)
-(* proposed in fixes-proposed/C13-tounicode-section-overflows-stack.diff)  *)
+(* ("as coded" = font/cmap before the repairs ec5b7ba, b4574b9, ce25cad)   *)
 (***************************************************************************)
 EXTENDS Charcode
 
